@@ -64,6 +64,10 @@ def replay_main(prop, path):
     os.makedirs(scratch, exist_ok=True)
     ctx = common.Ctx(prop, 'quick', 0, 0, 1, dict(mod.TIERS['quick']), scratch)
     ctx.replay = True
+    if 'case' not in w:
+        print('%s holds the classification of a refuting execution but not its case (%s); re-run `./check %s %s` with VERIF_SEED=%s for full witnesses'
+              % (path, w.get('note', 'compact record'), prop, w.get('tier', 'quick'), w.get('seed', 0)))
+        return 2
     print('replaying %s case: %s' % (prop, json.dumps(w.get('case'), ensure_ascii=True)[:2000]))
     mod.run_case(ctx, w['case'])
     d = ctx.rec.dump()
@@ -199,6 +203,17 @@ def main():
         vio_lines.append('VIOLATION property=%s replay=%s' % (prop, path))
         vio_lines.append('  # kind=%s mech=%s facts=%s' % (w['kind'], json.dumps(w.get('mech'), default=repr)[:200],
                                                           json.dumps(w.get('facts'), ensure_ascii=True, default=repr)[:400]))
+    if unknown and not vio_lines:
+        # every refuting execution reached here without its full witness (rationing in the shards): still name one, with the
+        # classification data that was kept - exit 1 always comes with a VIOLATION line
+        os.makedirs(rdir, exist_ok=True)
+        w = dict(unknown[0], property=prop, tier=tier, seed=seed, note='compact record: re-run the tier with this seed for the full witness')
+        body = json.dumps(w, indent=1, sort_keys=True, ensure_ascii=True, default=repr)
+        path = os.path.join('replays', prop, '%s.json' % hashlib.sha1(body.encode()).hexdigest()[:12])
+        with open(os.path.join(VERIF, path), 'w') as f:
+            f.write(body + '\n')
+        vio_lines.append('VIOLATION property=%s replay=%s' % (prop, path))
+        vio_lines.append('  # kind=%s mech=%s (compact)' % (w['kind'], json.dumps(w.get('mech'), default=repr)[:200]))
     n_unknown = len(unknown)
     groups = collections.Counter(json.dumps([w['kind'], w.get('mech')], sort_keys=True, default=repr)[:300] for w in unknown)
     wall = time.time() - t0
